@@ -404,13 +404,18 @@ class WebVTTWriter(BaseWriter):
         # A properly encoded WebVTT string (plain unicode must be properly
         # escaped before being appended to this string)
         s = ""
+        # Opening tags written since the last text node: they belong to the
+        # text that follows them (and to its cue, if the positioning changes)
+        open_tail = ""
         for i, node in enumerate(nodes):
             if node.type_ == CaptionNode.TEXT:
                 if s and current_layout and node.layout_info != current_layout:
                     # If the positioning changes from one text node to
                     # another, a new WebVTT cue has to be created.
-                    layout_groups.append((s, current_layout))
-                    s = ""
+                    layout_groups.append(
+                        (s[:len(s) - len(open_tail)], current_layout))
+                    s = open_tail
+                open_tail = ""
                 # ATTENTION: This is where the plain unicode node content is
                 # finally encoded as WebVTT.
                 s += self._encode_illegal_characters(node.content) or "&nbsp;"
@@ -431,8 +436,10 @@ class WebVTTWriter(BaseWriter):
                         tags = self._convert_style_to_text_tag(style)
                         if node.start:
                             s += tags[0]
+                            open_tail += tags[0]
                         else:
                             s += tags[1]
+                            open_tail = ""
 
                 # TODO: Refactor pycaption and eliminate the concept of a
                 # "Style node"
@@ -442,6 +449,7 @@ class WebVTTWriter(BaseWriter):
                 if i == 0:  # cue text starts with a break
                     s += "&nbsp;"
                 s += "\n"
+                open_tail = ""
 
         if s:
             layout_groups.append((s, current_layout))
